@@ -43,7 +43,7 @@ REQUIRED = {
               'learned_clauses_checked': 40000, 'trail_entries_checked': 500000,
               'tseitin_checker_accepted': 200, 'tseitin_equisat_checked': 200, 'tseitin_unsat_side': 60,
               'exh2_parts_done': 2, 'exh2_cases': 44136, 'exh3_parts_done': 1, 'exh3_cases': 7141,
-              'oracle_calibrated': 16},
+              'oracle_calibrated': 17},
     'thorough': {'solve_calls': 52000000, 'hook:unit_propagate': 60000000, 'hook:analyze_conflict': 5000000,
                  'hook:backtrack': 5000000, 'sat_models_checked': 10000000, 'unsat_traces_replayed': 3000000,
                  'learned_clauses_checked': 5000000, 'trail_entries_checked': 60000000,
@@ -76,8 +76,8 @@ def shards(tier, seed):
         out += [{'kind': 'exh', 'nv': 3, 'maxc': 2, 'part': 0, 'parts': 1}]
         out += [{'kind': 'exh_sample', 'nv': 3, 'nc': 3, 'count': 30000, 'i': i} for i in range(2)]
         out += [{'kind': 'exh_sample', 'nv': 3, 'nc': 4, 'count': 30000, 'i': 2}]
-        out += [{'kind': 'random', 'count': 12000, 'i': i} for i in range(4)]
-        out += [{'kind': 'tseitin', 'count': 60, 'i': i} for i in range(4)]
+        out += [{'kind': 'random', 'count': 16000, 'i': i} for i in range(3)]
+        out += [{'kind': 'tseitin', 'count': 40, 'i': i} for i in range(6)]
     else:
         out += [{'kind': 'exh', 'nv': 2, 'maxc': 4, 'part': p, 'parts': 12, 'rec': 4} for p in range(12)]
         out += [{'kind': 'exh', 'nv': 3, 'maxc': 4, 'part': p, 'parts': 84, 'rec': 64} for p in range(84)]
@@ -877,6 +877,12 @@ def do_formula(ctx, f, kind, sample=False):
             ctx.count('oracle_unknown_too_many_vars')
         info['cnf_clauses'] = len(cnf_ind)
         info['cnf_vars'] = len(cn)
+    if capture:
+        # one root cause: encode() names its variables x1, x2, ... without avoiding the atoms of the formula
+        sym = ('TSEITIN:conclusion-is-not-a-cnf', 'TSEITIN:convert_cnf-raised', 'TSEITIN:convert_cnf-misreads-conclusion',
+               'TSEITIN:cnf-not-equisatisfiable')
+        viol = [(('TSEITIN:fresh-name-capture', d if 'named like' in d else d + ' - an atom of the formula is named like the '
+                  'variables x<i> that encode() introduces') if m in sym else (m, d)) for m, d in viol]
     seen = set()
     for mech, desc in viol:
         if mech in seen:
